@@ -28,3 +28,6 @@ prop('CX1', ['I1', 'I2', 'I3', 'S3', 'A1'], 'tmp', [])
 prop('C05', ['F1', 'F2', 'F3', 'F4'], 'tree_map', ['functor laws'])
 prop('C10', ['F6', 'F2', 'F1'], 'transpose', ['involution'])
 prop('CX2', ['F7', 'F9', 'T6', 'K7py', 'P2py', 'K9py'], 'tmp', [])
+
+prop('C13', ['D1', 'D2', 'D3', 'K2'], 'dict order', ['nestings'])
+prop('CX3', ['G3', 'G4', 'K6py', 'T5'], 'tmp', [])
